@@ -171,7 +171,8 @@ def check_refused(ctx, out, mode, text_re, key, wit):
         ctx.violation(key + ':' + str(mode) + ':graded', 'refusal expected, got %r' % (r,), wit)
     elif mode == 'msg' and not re.search(text_re, r['msg']):
         ctx.violation(key + ':msg:text', 'message missing: %r' % (r,), wit)
-    elif mode is None and r['msg'] != '':
+    elif mode is None and lib.strip_debug(r['msg']) != '' and not ('<pre>MITx Grading Library' in r['msg'] and re.search(text_re, r['msg'])):
+        # (with debug=True the library deliberately attaches the explanation to the silent refusal, before the log)
         ctx.violation(key + ':None:text', 'silent refusal expected: %r' % (r,), wit)
 
 
@@ -195,6 +196,9 @@ def check_accept_any(ctx, rng):
     cfg['accept_nonempty' if nonempty else 'accept_any'] = True
     if nonempty and rng.random() < 0.4:
         cfg['accept_any'] = True        # both switches on: accept_nonempty still demands at least one character
+    if rng.random() < 0.15:
+        cfg['debug'] = True             # the debug log changes nothing about how a refusal is delivered
+        ctx.count('debug_cases')
     g = StringGrader(**cfg)
     out = lib.call(ctx, g, None, sub)
     ctx.ev()
@@ -252,6 +256,9 @@ def check_pattern(ctx, rng):
             sub = sub.upper() if rng.random() < 0.5 else sub.title()
     cfg = {'validation_pattern': pattern, 'explain_validation': mode, 'invalid_msg': 'BAD FORMAT'}
     cfg.update(flags)
+    if rng.random() < 0.15:
+        cfg['debug'] = True
+        ctx.count('debug_cases')
     expect = rng.choice(good)
     if accept_any:
         cfg['accept_any'] = True
@@ -291,7 +298,7 @@ def check_pattern(ctx, rng):
         ctx.violation('C18:pattern:match_refused', 'matches entirely but %r' % (out.brief(),), wit)
         return
     got = out.value['grade_decimal'] == 1
-    if got != want or (not got and out.value['msg'] != ''):
+    if got != want or (not got and lib.strip_debug(out.value['msg']) != ''):
         ctx.violation('C18:pattern:match_misgraded', 'expected %s, got %r' % (want, out.value), wit)
 
 
